@@ -430,6 +430,98 @@ func c17Funcs(c *Ctx) int {
 	return n
 }
 
+// c17PointerHeld: a Stack (or Condition) that somebody holds BY POINTER is freed through the variable the
+// pointer points at, or is still a zero value when it is stored and comes to life later. Whoever holds the
+// pointer - a Condition as its expression, a Stack as an element - answers for what the pointer leads to at
+// the time of the question: a freed instance is inert (no nesting, nothing to descend into, no panic), a
+// revived one is a Stack like any other.
+func c17PointerHeld(c *Ctx) int {
+	n := 0
+	type holderSet struct {
+		cond   stackage.Condition
+		stack  stackage.Stack
+		inCond stackage.Stack
+	}
+	hold := func(p any) holderSet {
+		cd := stackage.Cond("k", stackage.Eq, p)
+		return holderSet{cd, stackage.And().Push("a", p, "b"), stackage.List().Push(cd, "z")}
+	}
+	ask := func(h holderSet) (nesting [3]bool, condLen int, panicked string) {
+		panicked = noPanic(func() {
+			nesting = [3]bool{h.cond.IsNesting(), h.stack.IsNesting(), h.inCond.IsNesting()}
+			condLen = h.cond.Len()
+			h.cond.IsFIFO()
+			_ = h.cond.String()
+			_ = h.stack.String()
+			h.cond.Unmarshal()
+			h.stack.Unmarshal()
+			h.stack.Traverse(1, 0)
+			h.inCond.Traverse(0, 0)
+			h.stack.IsEqual(h.stack)
+			h.cond.IsEqual(h.cond)
+			h.stack.Reveal()
+			h.stack.Defrag()
+			h.inCond.Defrag()
+		})
+		return
+	}
+	for _, form := range []string{"*Stack", "*StackAlias", "**Stack"} {
+		for _, order := range []string{"freed-afterwards", "revived-afterwards", "revived-by-Marshal"} {
+			n++
+			c.Transitions.Add(1)
+			var st stackage.Stack
+			var al StackAlias
+			var p any
+			pst := &st
+			switch form {
+			case "*Stack":
+				p = &st
+			case "*StackAlias":
+				p = &al
+			default:
+				p = &pst
+			}
+			set := func(v stackage.Stack) {
+				st, al = v, StackAlias(v)
+			}
+			desc := fmt.Sprintf("a %s held as a Condition's expression and as a Stack element, %s", form, order)
+			if order == "freed-afterwards" {
+				set(stackage.Or().Push("x", "y"))
+			}
+			h := hold(p)
+			switch order {
+			case "freed-afterwards":
+				if form == "*StackAlias" {
+					tmp := stackage.Stack(al)
+					tmp.Free()
+					al = StackAlias(tmp)
+				} else {
+					st.Free()
+				}
+			case "revived-afterwards":
+				set(stackage.Or().Push("x", "y"))
+			case "revived-by-Marshal":
+				st.Marshal("OR", "x", "y")
+				al = StackAlias(st)
+			}
+			nesting, condLen, p2 := ask(h)
+			if p2 != "" {
+				c.Violation("pointer-held:panic:"+order, desc+": a query on the holder panicked: "+p2, nil, 0)
+				continue
+			}
+			live := order != "freed-afterwards"
+			if nesting[0] != live || nesting[1] != live {
+				c.Violation("pointer-held:IsNesting:"+order, fmt.Sprintf("%s: IsNesting of the Condition / the Stack holding the pointer = %v / %v, want %v (the pointer now leads to %s)", desc, nesting[0], nesting[1], live, map[bool]string{true: "a live Stack of two elements", false: "a freed, zero Stack"}[live]), nil, 0)
+			}
+			if want := map[bool]int{true: 2, false: 1}[live]; condLen != want {
+				c.Violation("pointer-held:Len:"+order, fmt.Sprintf("%s: Condition.Len()=%d want %d", desc, condLen, want), nil, 0)
+			}
+			c.Outcome("pointer-held/" + order)
+		}
+	}
+	return n
+}
+
 // Free and Reset clauses on live instances
 func c17FreeReset(c *Ctx) int {
 	n := 0
@@ -699,7 +791,11 @@ func init() {
 			states []string
 		}{{"Stack", stackage.Stack{}, []string{"zero", "freed", "freed-twice"}}, {"Condition", stackage.Condition{}, []string{"zero", "freed", "freed-twice", "init-only", "init-only+policy", "init-only+policy+nopad", "init-only+policy+paren", "init-only+policy+nopad+paren+encap+nonest", "init-only+nopad+paren+encap", "init-only+policy+closures+nopad"}}, {"Auxiliary", stackage.Auxiliary{}, []string{"nil", "empty"}}} {
 			for _, me := range methodsOf(rv.sample, rv.name) {
-				for _, t := range argTuples(me.Type, c17Pick(me.Name), 300) {
+				tuples := argTuples(me.Type, c17Pick(me.Name), 300)
+				if rv.name != "Auxiliary" {
+					tuples = append(tuples, extraTuples(me.Name)...) // structured inputs (label envelopes in every case, long paths)
+				}
+				for _, t := range tuples {
 					for _, st := range rv.states {
 						jobs = append(jobs, job{c17Case{rv.name, st, me.Name, t.Desc, false}, t.Args})
 					}
@@ -736,7 +832,7 @@ func init() {
 			}
 		}
 		nf := c17Funcs(c)
-		nr := c17FreeReset(c)
+		nr := c17FreeReset(c) + c17PointerHeld(c)
 		c.States.Store(int64(len(jobs) + nf + nr))
 		c.Exhaustive = true
 		c.Rule = "every exported method in the method sets of *Stack, *Condition and Auxiliary (reflection) x argument tuples from the typed catalogue (awkward values wherever `any` is taken) x receiver states {zero value, freed, freed twice; Init()-only Condition; nil / empty Auxiliary}; every exported package-level function (table generated from /repo's sources at build time) x awkward arguments; Reset on every nil pattern of length 0..4 x kinds x capacity x three configuration variants, and on stacks that held 1023..2500 elements (also shrunk again); for calls on an Init()-only Condition and for every non-query call: three bystander instances and a newly made Init()-only Condition answer every argument-free query as before; Free on read-only and writable instances. Oracle: no panic, handle still zero (except Marshal / Condition.Init), zero results (bool false except IsZero/IsEmpty/IsPadded, 0, nil, String()==\"\", error from Valid/IsEqual), zero and freed instances answer identically. non-trivial = distinct calls that returned"
@@ -767,7 +863,7 @@ func init() {
 		}
 		for _, me := range methodsOf(sample, cs.Recv) {
 			if me.Name == cs.Method {
-				for _, t := range argTuples(me.Type, c17Pick(me.Name), 300) {
+				for _, t := range append(argTuples(me.Type, c17Pick(me.Name), 300), extraTuples(me.Name)...) {
 					if t.Desc == cs.Args {
 						c17Run(c, cs, t.Args, nil, false)
 					}
